@@ -48,7 +48,7 @@ def model_runs(tier):
     if tier == "thorough":
         waves += [[("IncludeReq5", "hold", 8), ("IncludeAswFit5", "hold", 8)],
                   [("IncludeShift:IncludeShiftAsw", "hold", 8), ("IncludeShift:IncludeShiftAswPack", "violate", 2), ("IncludeAswPackFit", "hold", 6)],
-                  [("IncludeShift:IncludeShiftReq5", "hold", 16)],
+                  [("IncludeShift:IncludeShiftReq4", "hold", 8)], [("IncludeShift:IncludeShiftReq5", "hold", 16)],
                   [("IncludeReq6", "hold", 16)], [("IncludeAswFit6", "hold", 16)],
                   [("IncludeReqIL7", "hold", 16)], [("IncludeReqIF7", "hold", 16)]]
     return waves
@@ -214,6 +214,9 @@ def variants(tier, faults, phase, rng):
     return out
 
 
+QUICK_FULL = ("undef@None/lead", "undef@16383/mid", "undef@16384/lead", "undef@20000/mid", "syntax@100/lead")
+
+
 class Interner(object):
     def __init__(self):
         self.tab = {}
@@ -279,9 +282,9 @@ def prepare_replay(chk, tier, build):
     for fi, (fkey, faults, phase) in enumerate(fams):
         famfaults[fi] = faults
         vs = variants(tier, faults, phase, rng)
-        if tier == "quick" and len(faults) == 1 and phase == "sem" and faults[0].kind != "undef":
-            # single-fault families other than `undef': base + a seed-chosen third of the layouts
-            vs = vs[:1] + [v for v in vs[1:] if rng.random() < 0.25]
+        if tier == "quick" and len(faults) == 1 and phase in ("sem", "syn") and fkey not in QUICK_FULL:
+            # most single-fault families: the base layout + a seed-chosen eighth of the layouts
+            vs = vs[:1] + [v for v in vs[1:] if rng.random() < 0.125]
         for vi, (lay, kw) in enumerate(vs):
             try:
                 c = G.build(lay, faults, **kw)
